@@ -404,3 +404,54 @@ func Verif_C13_endpoint_invalidation() {
 		vs.Assert("and its transport is closed exactly once", fd.conns[0].closes == 1)
 	}
 }
+
+// Verif_C13_endpoint_adoption: a reload hands a live endpoint to the next generation (GetOrCreate
+// with the new generation's conn-state owner), before or after the endpoint registered its first
+// flow tuples (symbolic). Tuples registered after the hand-over belong to the new generation's
+// tracker, tuples registered before it are moved there; the old generation holds none; closing
+// the endpoint removes every kernel entry and leaves both trackers empty.
+func Verif_C13_endpoint_adoption() {
+	vs.Schedules(0)
+	vs.Assume(time.Now().After(time.Unix(1000, 0)))
+	k := &c13Kernel{present: map[bpfTuplesKey]bool{}, holders: map[bpfTuplesKey]int{}}
+	c13InstallKernel(k)
+	oldCore, newCore := c13Core(), c13Core()
+	p := &UdpEndpointPool{janitorStop: make(chan struct{}), janitorDone: make(chan struct{})}
+	for i := range p.shards {
+		p.shards[i].pool = make(map[UdpEndpointKey]*UdpEndpoint, 4)
+	}
+	fd := &c13Dialer{}
+	d := &dialer.Dialer{Dialer: fd}
+	key := UdpEndpointKey{Src: netip.MustParseAddrPort("10.0.0.1:1000")}
+	opt := func(owner udpConnStateOwner) *UdpEndpointOptions {
+		return &UdpEndpointOptions{
+			Handler:        func(ue *UdpEndpoint, data []byte, from netip.AddrPort) error { return nil },
+			NatTimeout:     30 * time.Second,
+			ConnStateOwner: owner,
+			GetDialOption: func(ctx context.Context) (*DialOption, error) {
+				return &DialOption{Target: "8.8.8.8:53", Dialer: d, Network: "udp"}, nil
+			},
+		}
+	}
+	src, dst1, dst2 := netip.MustParseAddrPort("10.0.0.1:1000"), netip.MustParseAddrPort("8.8.8.8:53"), netip.MustParseAddrPort("8.8.4.4:53")
+	ue, _, err := p.GetOrCreate(key, opt(oldCore))
+	vs.Assert("endpoint created", err == nil && ue != nil)
+	trackedBefore := vs.Bool("flowBeforeHandover")
+	if trackedBefore {
+		ue.TrackUdpConnStateTuplePair(src, dst1)
+	}
+	ue2, isNew, err := p.GetOrCreate(key, opt(newCore)) // the next generation's first packet of this source
+	vs.Assert("the live endpoint is reused across the reload", err == nil && !isNew && ue2 == ue && fd.dials == 1)
+	ue.TrackUdpConnStateTuplePair(src, dst2)
+	oldN, newN := len(oldCore.getUdpConnStateTracker().entries), len(newCore.getUdpConnStateTracker().entries)
+	want := 2
+	if trackedBefore {
+		want = 4
+	}
+	vs.Assert("after the hand-over the old generation tracks none of the endpoint's tuples", oldN == 0)
+	vs.Assert("and the new generation tracks all of them", newN == want)
+	_ = ue.Close()
+	vs.Join()
+	vs.Assert("closing the endpoint leaves both trackers empty", len(oldCore.getUdpConnStateTracker().entries) == 0 && len(newCore.getUdpConnStateTracker().entries) == 0)
+	vs.Assert("and removes its kernel flow entries", len(k.present) == 0)
+}
